@@ -12,6 +12,8 @@
 (*             exception is [t |-> "error", s |-> class name])             *)
 (*   regread   obs = <k> of ComponentRegistry(settings=RegistrySettings(    *)
 (*             <k>=e.v, <K>=e.w)).settings  (Absent = omitted)             *)
+(*   compdirs  obs = get_component_dirs(include_apps=e.inc) as a typed     *)
+(*             value [t |-> "dirs", l |-> the paths] (or the error)        *)
 (*   startup   a start-up of the app (AppConfig.ready() on pristine Django  *)
 (*             template internals, empty registry, no template cache)      *)
 (*             under the current settings: dyn = names under which the     *)
@@ -36,6 +38,9 @@ VARIABLES tid, l, phase, clean
 trVars == <<user, form, base, ret, tid, l, phase, clean>>
 
 Events == Traces[tid].events
+\* the world of get_component_dirs (the same for every trace of a batch)
+FS == {Traces[1].fs[i] : i \in DOMAIN Traces[1].fs}
+Apps == {Traces[1].apps[i] : i \in DOMAIN Traces[1].apps}
 Ev == Events[l]
 
 TrInit == /\ tid = 1 /\ l = 1 /\ phase = "step" /\ clean = TRUE
@@ -61,7 +66,7 @@ Pre(e) ==
                            /\ \A i \in DOMAIN e.given : e.given[i].k \in Keys /\ e.given[i].v.t # "absent"
     [] e.op = "read"    -> e.k \in Accessors
     [] e.op = "regread" -> e.k \in RegKeys
-    [] e.op \in {"drop", "startup"} -> TRUE
+    [] e.op \in {"drop", "startup", "compdirs"} -> TRUE
     [] OTHER -> FALSE
 
 SpecAction(e) ==
@@ -73,6 +78,7 @@ SpecAction(e) ==
     [] e.op = "load"    -> Load(FromGiven(e.given), e.s)
     [] e.op = "read"    -> Read(e.k)
     [] e.op = "regread" -> RegRead(e.k, e.v, e.w)
+    [] e.op = "compdirs" -> CompDirs(FS, Apps, e.inc)
     [] e.op = "startup" -> UNCHANGED <<user, form, base, ret>>
 
 Step == /\ tid <= Len(Traces) /\ phase = "step" /\ l <= Len(Events)
@@ -88,10 +94,20 @@ ReadFailing(e) ==
        THEN Dev(DevKey(user, form, e.k))
        ELSE {"read_" \o e.k}
 
+\* a set of directories is compared as a set
+SameResult(x, o) == x.t = o.t /\ x.s = o.s /\ ItemsOf(x) = ItemsOf(o)
+DirsFailing(e) ==
+  IF \E x \in ret : SameResult(x, e.obs) /\ Len(e.obs.l) = Cardinality(ItemsOf(e.obs)) THEN {}
+  ELSE IF /\ DevDirsKey(user, form, base, FS) # ""
+          /\ \E x \in DevComponentDirs(user, form, base, FS, Apps, e.inc) : SameResult(x, e.obs)
+       THEN Dev(DevDirsKey(user, form, base, FS))
+       ELSE {"component_dirs"}
+
 RegFailing(e) == IF e.obs \in ret THEN {} ELSE {"regread_" \o e.k}
 
 \* ---- start-up ---------------------------------------------------------------
-MayFail == \E k \in Accessors : \E x \in Adm(user, form, base, k) : x.t = "error"
+MayFail == \/ \E k \in Accessors : \E x \in Adm(user, form, base, k) : x.t = "error"
+           \/ DirsMayFail(user, form, base)
 StartupFailing(e) ==
   IF e.failed # "" THEN (IF MayFail /\ e.failed = "ValueError" THEN {} ELSE {"startup_failed"})
   ELSE
@@ -118,6 +134,7 @@ StartupFailing(e) ==
 Failing(e) ==
   CASE e.op = "read"    -> ReadFailing(e)
     [] e.op = "regread" -> RegFailing(e)
+    [] e.op = "compdirs" -> DirsFailing(e)
     [] e.op = "startup" -> StartupFailing(e)
     [] OTHER -> {}
 
@@ -136,7 +153,7 @@ TrSpec == TrInit /\ [][TrNext]_trVars
 
 \* the theorems of Settings on every settings state a trace went through
 TraceTheorems == tid <= Len(Traces) =>
-   /\ WellFormed(user, form)
+   /\ WellFormed(user, form) /\ DirsTheorems(FS, Apps)
    /\ DefaultsWhenEmpty /\ FormIndependent /\ DeterminedUnlessAmbiguous /\ GivenWins
    /\ EmptyIsAValue /\ ContextBehaviorClosed /\ AliasEquivalent
 =============================================================================
